@@ -32,7 +32,7 @@ EXPLANATION = 'theorems: the hand-off means exactly Feasible/value; per-instance
 
 
 def scenarios(seed, tier):
-    n = 90 if tier == 'quick' else 1000
+    n = 240 if tier == 'quick' else 2500
     rnd = random.Random(seed * 7919 + 3)
     for i in range(n):
         r2 = random.Random(rnd.getrandbits(48))
